@@ -597,7 +597,7 @@ func (m *merger) heaps() (*Heap, bool) {
 		if oa == nil {
 			continue
 		}
-		if oa == ob || oa.V == ob.V {
+		if oa == ob || sameValue(oa.V, ob.V) {
 			continue
 		}
 		v, ok := m.val(oa.V, ob.V)
@@ -633,7 +633,7 @@ func (m *merger) heaps() (*Heap, bool) {
 				continue
 			}
 			fo, ok := m.hb.frozen[id]
-			if !ok || fo == oa || fo.V == oa.V {
+			if !ok || fo == oa || sameValue(fo.V, oa.V) {
 				continue
 			}
 			v, ok := m.val(oa.V, fo.V)
@@ -644,4 +644,26 @@ func (m *merger) heaps() (*Heap, bool) {
 		}
 	}
 	return out, true
+}
+
+// sameValue is pointer identity for the pointer-shaped value kinds (never compares uncomparable structs).
+func sameValue(a, b Value) bool {
+	switch x := a.(type) {
+	case *term.Term:
+		y, ok := b.(*term.Term)
+		return ok && x == y
+	case *StructV:
+		y, ok := b.(*StructV)
+		return ok && x == y
+	case *ArrayV:
+		y, ok := b.(*ArrayV)
+		return ok && x == y
+	case *OpaqueV:
+		y, ok := b.(*OpaqueV)
+		return ok && x == y
+	case *mapData:
+		y, ok := b.(*mapData)
+		return ok && x == y
+	}
+	return false
 }
